@@ -5,6 +5,7 @@ package c04
 import (
 	"bufio"
 	"crypto/sha256"
+	"encoding/binary"
 	"fmt"
 	"io"
 	"io/fs"
@@ -183,7 +184,7 @@ func findTargets(dir string) []target {
 					used--
 				}
 				rel, _ := filepath.Rel(dir, p)
-				ts = append(ts, target{class: "chunks_head", path: rel, size: min(used+16, fi.Size())})
+				ts = append(ts, target{class: "chunks_head", path: rel, size: min(used+16, fi.Size()), bounds: headChunkBounds(b)})
 			}
 		}
 	}
@@ -195,6 +196,34 @@ type damage struct {
 	kind string // truncate | flip | zero
 	off  int64
 	bit  uint
+}
+
+// headChunkBounds parses a head chunk file (8-byte header; per chunk: series ref 8, mint 8,
+// maxt 8, encoding 1, uvarint data length, data, CRC32 4) and returns the start offset of every
+// chunk record; the slice ends with the end offset of the last complete record.
+func headChunkBounds(b []byte) []int64 {
+	var out []int64
+	off := 8
+	for off+25 < len(b) {
+		allZero := true
+		for _, x := range b[off : off+24] {
+			if x != 0 {
+				allZero = false
+				break
+			}
+		}
+		if allZero {
+			break
+		}
+		n, w := binary.Uvarint(b[off+25:])
+		if w <= 0 || off+25+w+int(n)+4 > len(b) {
+			break
+		}
+		out = append(out, int64(off))
+		off += 25 + w + int(n) + 4
+	}
+	out = append(out, int64(off))
+	return out
 }
 
 func pickDamages(r *rand.Rand, ts []target, perTarget int) []damage {
@@ -210,6 +239,14 @@ func pickDamages(r *rand.Rand, ts []target, perTarget int) []damage {
 		for i := 0; i < perTarget/2 && len(tg.bounds) > 0; i++ {
 			b := tg.bounds[r.IntN(len(tg.bounds))]
 			add(b + int64(r.IntN(12)) - 2)
+		}
+		if tg.class == "chunks_head" && len(tg.bounds) > 3 {
+			// inside the third and later chunk records (header, data, CRC)
+			for i := 0; i < perTarget/2; i++ {
+				k := 2 + r.IntN(len(tg.bounds)-3)
+				lo, hi := tg.bounds[k], tg.bounds[k+1]
+				add(lo + r.Int64N(hi-lo))
+			}
 		}
 		for p := int64(32 * 1024); p < tg.size; p += 32 * 1024 {
 			add(p - 1)
@@ -274,6 +311,9 @@ func run(c *core.Case) {
 	r := c.Rng
 	cfg := tsdbhist.GenConfig(r)
 	cfg.WALSegment = 32 * 1024
+	if r.IntN(2) == 0 {
+		cfg.OOOCapMax = 4
+	}
 	cfg.Snapshot = false // a memory snapshot would make the head independent of the damaged logs (C23's subject)
 	if r.IntN(3) != 0 && cfg.OOOWindow == 0 {
 		cfg.OOOWindow = cfg.BlockRange
@@ -284,6 +324,11 @@ func run(c *core.Case) {
 	g := tsdbhist.NewGen(r, cfg)
 	g.WRestart = 3
 	g.WCompact = 16
+	if cfg.OOOWindow > 0 && r.IntN(2) == 0 {
+		// many out-of-order samples and a small out-of-order chunk capacity: out-of-order chunks get
+		// m-mapped into the head-chunk files (with markers in the WBL)
+		g.OOOTenths = 5
+	}
 	nops := 25 + r.IntN(50)
 	var events []event
 	for i := 0; i < nops; i++ {
@@ -385,6 +430,20 @@ func run(c *core.Case) {
 	damages := pickDamages(r, targets, per)
 	for _, tg := range targets {
 		c.Seen("target_class", tg.class)
+		if tg.class == "chunks_head" {
+			b, _ := os.ReadFile(filepath.Join(image, tg.path))
+			nOOO := 0
+			for i := 0; i+1 < len(tg.bounds); i++ {
+				if int(tg.bounds[i])+24 < len(b) && b[tg.bounds[i]+24]&0x80 != 0 {
+					nOOO++
+				}
+			}
+			c.Count("head_chunk_records_in_targets", int64(len(tg.bounds)-1))
+			c.Count("ooo_head_chunk_records_in_targets", int64(nOOO))
+			if len(tg.bounds)-1 >= 3 && nOOO >= 2 {
+				c.Count("targets_with_3plus_chunks_and_2plus_ooo", 1)
+			}
+		}
 	}
 	for di, d := range damages {
 		work := fmt.Sprintf("%s/dmg-%d", c.TempDir(), di)
@@ -499,7 +558,9 @@ func checkDamaged(c *core.Case, cfg tsdbhist.Config, orig *tsdbhist.Exec, events
 					if inBlocks(s.series, s.t) {
 						continue
 					}
-					if s.ooo || !inWAL[s.series][s.t] {
+					// out-of-order samples are restored from the WBL (m-map markers pointing into removed
+					// chunk files are ignored), in-order ones from the WAL if it still holds them
+					if !s.ooo && !inWAL[s.series][s.t] {
 						x.AllowMissing(s.series, s.t)
 					}
 				}
@@ -546,7 +607,7 @@ func checkDamaged(c *core.Case, cfg tsdbhist.Config, orig *tsdbhist.Exec, events
 				c.Violatef("failed-open-removed-file", "%s\ntsdb.Open failed (%v) and removed %s", what, err, f)
 				return
 			}
-			if after[f] != h && f != d.tg.path {
+			if after[f] != h && f != d.tg.path && !baselineRemoved[f] {
 				c.Violatef("failed-open-altered-file", "%s\ntsdb.Open failed (%v) and altered undamaged file %s", what, err, f)
 				return
 			}
@@ -627,7 +688,7 @@ func checkDamaged(c *core.Case, cfg tsdbhist.Config, orig *tsdbhist.Exec, events
 	}
 	if diff := x.Check(nil); diff != "" {
 		kind := "after-repair-restart:" + classify(diff)
-		if k, t, ok := parseMissing(diff); ok && newSample[k] == t && repaired {
+		if k, t, ok := parseMissing(diff); ok && newSample[k] == t && (d.tg.class == "wal" || d.tg.class == "checkpoint") {
 			// Known-finding predicate: the lost sample is one of the post-repair writes, the first
 			// open repaired the WAL, and this open returns samples of that series newer than the
 			// lost one that the first open did not return (head-chunk files held m-mapped chunks
